@@ -202,6 +202,22 @@ func checkC14(r *Run) {
 	c := buildCorpus(r, corpusOpts{N: n, Formats: []string{"jsonschema", "openapi", "cue"}, Profile: "general,defaults,constraints", Langs: []string{"go"}, Builders: true, Converters: true,
 		DocsPerObj: r.n(5, 9), Tag: "c14", Extras: c09Extras})
 	defer c.cleanup()
+	// the fixed veneer workloads are configurations cog generates builders and converters for: a run that now ends in
+	// an error (cog's own formatting step rejecting a converter it printed) has no converter to invert anything
+	for _, cs := range c.Schemas {
+		if cs.Extra != "" && (cs.GenErr != nil || cs.GenPanic != nil) {
+			r.Eval()
+			msg := fmt.Sprint(cs.GenErr)
+			if cs.GenPanic != nil {
+				msg = fmt.Sprint("panic: ", cs.GenPanic)
+			}
+			cls := "other"
+			if strings.Contains(msg, "converter") {
+				cls = "converter-file-rejected"
+			}
+			r.Violation("fixed-workload-not-generated/"+cs.Extra+"/"+cls, fmt.Sprintf("the %s workload (%s input) no longer generates: %s", cs.Extra, cs.Format, truncate(msg, 600)), map[string]any{"format": cs.Format, "schema": string(cs.SchemaText), "veneers": cs.Veneers})
+		}
+	}
 	if err := c.buildGoDriver(); err != nil {
 		r.Inconclusive("go driver: " + err.Error())
 		return
